@@ -275,7 +275,8 @@ func (s *PfcpServer) sendReqTo(msg message.Message, addr net.Addr) error {
 		return errors.Errorf("sendReqTo: invalid req type(%d)", msg.MessageType())
 	}
 
-	txtr := NewTxTransaction(s, addr, s.txSeq)
+	// the PFCP sequence number has 24 bits: keep the transaction key in step with the wire
+	txtr := NewTxTransaction(s, addr, s.txSeq&0xffffff)
 	s.txSeq++
 	s.txTrans[txtr.id] = txtr
 
